@@ -13,6 +13,7 @@ from .. import templates
 from ..ode import ODE
 from .. import atoms
 from .. import schemes
+from .. import _verif
 
 logger = structlog.get_logger()
 
@@ -331,8 +332,24 @@ class CodeGenerator(abc.ABC):
             values_type=rhs.values_type,
             missing_variables=missing_variables,
         )
+        if _verif.enabled():
+            self._verif_emit("rhs", code, order=RHSArgument.get_value(order), nret=rhs.num_return_values)
 
         return self._format(code)
+
+    def _verif_emit(self, fn: str, code: str, **fields) -> None:
+        """Verification hook (guard on only): log an emitted function with the index maps in force."""
+        _verif.emit(
+            "Emit",
+            fn=fn,
+            generator=type(self).__name__,
+            remove_unused=self.remove_unused,
+            state_index={s.name: i for i, s in enumerate(self.ode.sorted_states())},
+            parameter_index={p.name: i for i, p in enumerate(self.ode.parameters)},
+            missing_index=dict(self._missing_variables),
+            code=code,
+            **fields,
+        )
 
     def _shape_info(self, shape) -> str:
         if self._shape == Shape.dynamic:
@@ -399,6 +416,10 @@ class CodeGenerator(abc.ABC):
             values_type="numpy.zeros(shape)",
             missing_variables=missing_variables,
         )
+        if _verif.enabled():
+            self._verif_emit(
+                "monitor_values", code, order=RHSArgument.get_value(order), nret=rhs.num_return_values
+            )
 
         return self._format(code)
 
@@ -449,6 +470,14 @@ class CodeGenerator(abc.ABC):
             values_type="numpy.zeros(shape)",
             missing_variables=missing_variables,
         )
+        if _verif.enabled():
+            self._verif_emit(
+                "missing_values",
+                code,
+                order=RHSArgument.get_value(order),
+                nret=rhs.num_return_values,
+                requested=dict(values),
+            )
 
         return self._format(code)
 
@@ -502,6 +531,15 @@ class CodeGenerator(abc.ABC):
             values_type=rhs.values_type,
             missing_variables=missing_variables,
         )
+        if _verif.enabled():
+            self._verif_emit(
+                "scheme",
+                code,
+                scheme=f.__code__.co_name,
+                order=SchemeArgument.get_value(order),
+                nret=rhs.num_return_values,
+                kwargs={k: v for k, v in kwargs.items()},
+            )
         return self._format(code)
 
     @property
